@@ -13,6 +13,13 @@ variable {α : Type}
 theorem upd_other (f : Nat → α) {i j : Nat} (v : α) (h : j ≠ i) : upd f i v j = f j := by
   simp [upd, h]
 
+/-- the `Vec` wrapper around a loop accumulator changes nothing -/
+theorem foldl_vec {β : Type} (step : (Nat → α) → β → (Nat → α)) (L : List β) (x : Nat → α) :
+    (L.foldl (fun (h : Vec α) a => Vec.mk (step h.get a)) ⟨x⟩).get = L.foldl step x := by
+  induction L generalizing x with
+  | nil => rfl
+  | cons a L ih => simp only [List.foldl_cons]; exact ih _
+
 /-! ### pre-order loop (pairs): `h[c] = g (p,c) h[p]` -/
 
 /-- write positions distinct, and a position read by an entry is not written at or after it -/
